@@ -102,6 +102,7 @@ func (e *Engine) resetPath(dec []bool) {
 	e.ufs = map[string]bool{}
 	e.complete = false
 	e.globals = map[*ssa.Global]*Object{}
+	e.inited = map[*ssa.Package]bool{}
 	e.curFn = e.curFn[:0]
 	e.outputs = 0
 	e.failSeq = 0
